@@ -2,7 +2,9 @@
 # Regenerates MANIFEST.json from specs/props/*.json (claimed properties) and specs/manifest_meta.json.
 import json, glob, os
 props=[json.loads(l) for l in open('/verif/properties.jsonl')]
+import subprocess
 meta=json.load(open('/verif/specs/manifest_meta.json'))
+meta['hook_commits']=subprocess.run(['git','-C','/repo','log','--reverse','--format=%h','--grep=^hook:','d13f82c..HEAD'],capture_output=True,text=True).stdout.split()
 claimed=sorted(os.path.basename(f)[:-5] for f in glob.glob('/verif/specs/props/C*.json'))
 claimed=[c for c in claimed if c in meta.get('claim',claimed)]
 checks=[]
@@ -19,7 +21,7 @@ for p in props:
       "engine":"icsvc",
       "level_claimed":{"category":"proof","text":m.get('text','Contracts on the real functions (comment-only contract files behind build tag verif), verification conditions generated from go/ssa of the current tree, discharged by z3/cvc5 for all inputs and loop iterations.'),"design_ref":m.get('design_ref','DESIGN.md section 4 ('+pid+')')},
       "level_note":m.get('note','Trusted: icsvc VC generator, SMT solvers, go/ssa front end, assumed contracts of SDK/IBC/CometBFT dependencies, codec round trips, KV-store semantics; see evidence.assumptions and DESIGN.md section 3.'),
-      "technique":"contract-based deductive verification (WP over go/ssa + SMT)"})
+      "technique":"contract-based deductive verification of the real Go code: requires/ensures/loop invariants in comment-only contract files, verification conditions by symbolic execution of go/ssa with loop cutting, discharged by z3/cvc5"+(" + syntactic inventory sweep (labelled, not counted as proof)" if pid in ("C13","C18") else "")})
 na=[{"property_id":p['id'],"reason":meta['na'].get(p['id'],'check not built yet (see DESIGN.md section 4 for the plan)')} for p in props if p['id'] not in claimed]
 man={"version":1,
  "setup_cmd":"cd /verif && ./setup.sh",
@@ -27,6 +29,6 @@ man={"version":1,
  "engines":[{"name":"icsvc","path":"/verif/icsvc","serves_properties":claimed,"kind_free_text":"verification-condition generator for Go (go/ssa symbolic execution with loop invariants and function contracts) + SMT back ends z3 4.8.12 / z3 5.1.0 / cvc5 1.0"}],
  "checks":checks,
  "not_applicable":na,
- "notes":"Contract-based deductive verification of the real Go code; see DESIGN.md. Known findings: /verif/known_findings.txt."}
+ "notes":"Contract-based deductive verification of the real Go code; see DESIGN.md. Known findings and fixed defects: /verif/known_findings.txt (two fix: commits in /repo: 489d42f, 2ab3991). Seeded changes: /verif/seeded."}
 json.dump(man,open('/verif/MANIFEST.json','w'),indent=1)
 print("claimed",claimed)
